@@ -12,7 +12,8 @@ class Family:
     implementation's observations."""
 
     def __init__(self, name, bin, args, model_entry, oracles=(), tiers=("quick", "thorough"),
-                 exhaustive=False, crate="harness", timeout=1500):
+                 exhaustive=False, crate="harness", timeout=1500, pair=False):
+        self.pair = pair
         self.name, self.bin, self.args, self.model_entry = name, bin, args, model_entry
         self.oracles, self.tiers, self.exhaustive, self.crate = list(oracles), tiers, exhaustive, crate
         self.timeout = timeout
@@ -95,6 +96,26 @@ class Family:
                                                    pre=impl.get((cid, int(k) - 1)), post=impl.get((cid, int(k)))))
                 else:
                     res["oracle_unreadable"] += 1
+        # ---- C08 pair oracle: case <x>b runs the calls one by one, case <x>a as one block
+        if self.pair:
+            last = {}
+            for (cid, k) in impl:
+                last[cid] = max(last.get(cid, 0), k)
+            for cid in cases:
+                if not cid.endswith("b") or cid[:-1] + "a" not in cases:
+                    continue
+                a = cid[:-1] + "a"
+                steps = [impl[(cid, k)] for k in range(2, last[cid] + 1)]
+                if not steps or any(not x.startswith("0 ") for x in steps):
+                    res["oracle_skipped"] += 1
+                    continue
+                fa = impl.get((a, 2), "")
+                if fa.split(" ", 3)[0] == "0" and fa.split(" ", 3)[3:] == steps[-1].split(" ", 3)[3:]:
+                    res["oracle_ok"] += 1
+                else:
+                    res["oracle_fail"].append(dict(oracle="block=sequence", cls="block differs from sequence", case=a, step=2,
+                                                   case_line=cases[a], sequence_case=cases[cid],
+                                                   block_obs=fa, sequence_final=steps[-1]))
         for cid in list(cases)[:2]:
             res["samples"].append("%s %s" % (cid, cases[cid][:300]))
         return res
@@ -163,6 +184,67 @@ PROPS["C03"] = dict(
     ],
     trusted=PROPS["C01"]["trusted"][:3] + ["hand-written Gallina model of dim2/orbits.rs, dim2/basic_ops.rs (ids, iterators)"],
     assumptions=PROPS["C01"]["assumptions"],
+)
+
+
+def r_fault2(tier, seed):
+    n = {"quick": 600, "thorough": 10000}[tier]
+    return ["--mode", "fault", "--cases", str(n), "--ops", "25", "--darts", "10"]
+
+
+def r_compose2(tier, seed):
+    n = {"quick": 1500, "thorough": 30000}[tier]
+    return ["--mode", "compose", "--cases", str(n), "--ops", "20", "--darts", "10"]
+
+
+ERR_CLASSES = {"1": "state changed although the call returned an error"}
+PROPS["C06"] = dict(
+    level="proof",
+    level_text="Coq theorems: for every program of the transactional language (core call, kernel, user block) and every "
+               "position of an injected law failure, an Err/hang/panic result publishes nothing (C06_atomically, C06_step2), and "
+               "the language has no handler (C06_no_catch). Tie: fault enumeration -- for each generated (state, call) one run per "
+               "index k of the failing user merge/split, implementation vs model, plus the oracle 'Err => dump unchanged' on "
+               "every implementation observation. 3D calls and kernels: see the families listed in the evidence",
+    technique="Coq proof (atomically publishes only on Ok) + exhaustive fault-index enumeration against the implementation",
+    families=[
+        Family("fault2", "core2", r_fault2, 1, [(4, "err_noop", ERR_CLASSES)]),
+        Family("core2-random", "core2", r_core2, 1, [(4, "err_noop", ERR_CLASSES)]),
+        Family("core2-exh3", "core2", x_core2(3), 1, [(4, "err_noop", ERR_CLASSES)], exhaustive=True),
+    ],
+    trusted=PROPS["C01"]["trusted"],
+    assumptions=PROPS["C01"]["assumptions"] + ["fast-stm's atomically_with_err drops the write log on abort (C07 validates the STM model)"],
+)
+
+PROPS["C08"] = dict(
+    level="proof",
+    level_text="Coq theorems: any list of programs free of non-transactional reads, run in one atomic block, yields exactly the "
+               "result and store of running them one after the other (C08_compose), and every public 2-map call is such a "
+               "program (C08_calls2_no_atomic, C08_block2). Tie: each generated call list is executed on the implementation both "
+               "as one block and call by call (states compared directly) and against the model",
+    technique="Coq proof (block = sequence for programs without read_atomic) + block-vs-sequence differential runs",
+    families=[
+        Family("compose2", "core2", r_compose2, 1, [], pair=True),
+    ],
+    trusted=PROPS["C01"]["trusted"],
+    assumptions=PROPS["C01"]["assumptions"],
+)
+
+ALLOC_CLASSES = {"1": "allocation id or counts wrong", "2": "appended slot not blank", "3": "C18:stale-slot-on-reuse",
+                 "4": "removal wrongly accepted or refused", "5": "unrelated state changed by allocation/removal",
+                 "6": "reused slot not free or still flagged"}
+PROPS["C18"] = dict(
+    level="proof",
+    level_text="Coq theorems C18_append / C18_insert / C18_remove / C18_addressable over the allocation invariant (preserved "
+               "by every history, C01): ids fresh and non-null, counters, first-flagged-slot reuse, refusal of linked or removed "
+               "darts, addressability; iterator/orbit clause = C03_iter/C03_in_use. Tie: random histories + exhaustive <=3 darts, "
+               "model vs implementation, and the extracted step oracle on every allocation/removal observation",
+    technique="Coq proof (allocation invariant over all histories) + correspondence + extracted step oracle",
+    families=[
+        Family("core2-random", "core2", r_core2, 1, [(5, "alloc_step", ALLOC_CLASSES)]),
+        Family("core2-exh3", "core2", x_core2(3), 1, [(5, "alloc_step", ALLOC_CLASSES)], exhaustive=True),
+    ],
+    trusted=PROPS["C01"]["trusted"],
+    assumptions=PROPS["C01"]["assumptions"] + ["attribute writes at identifiers >= n_darts are outside the API contract (spare_untouched)"],
 )
 
 
